@@ -130,8 +130,8 @@ PLAN = {
                       "pictures and application blocks, resize/remove/add padding, an over-size (>= 2^24 byte) block, a second PNG icon, "
                       "a failing callback; the history continues on whichever file a step produced; fingerprint = API result sequence + "
                       "I/O events; non-trivial = at least one transfer >= 8 bytes"),
-                quick=[("c10", "release", 6000)],
-                thorough=[("c10", "release", 300000), ("c10", "checked", 30000)],
+                quick=[("c10", "release", 6000), ("c10big", "release", 160)],
+                thorough=[("c10", "release", 300000), ("c10", "checked", 30000), ("c10big", "release", 6000), ("c10big", "checked", 600)],
                 assumptions=["edited list = the BlockList as it stands at the end of the callback", "metadata boundaries from refflac"]),
     "C11": dict(level="exploration",
                 rule=("restricted claim: block values are sampled (STREAMINFO extremes incl. 1-bit and 32-bit, arbitrary UTF-8 comments, "
@@ -313,6 +313,7 @@ EXPECT = {
   "write_ended_inside_pcm_frame"
  ],
  "C10": [
+  "c10_padding_near_24bit_limit",
   "c10_24bit_limit_crossed",
   "c10_delta_above_fit",
   "c10_delta_below_fit",
